@@ -134,6 +134,8 @@ def note(st, r):
     d['shape:' + ('1 x n' if nx == 1 else 'n x 1' if ny == 1 else '3-D')] += 1
     d['blocks:' + ('<=50' if nx * ny * nz <= 50 else '<=400' if nx * ny * nz <= 400 else '>400')] += 1
     d['rotated:' + ('yes' if r['angle'] else 'no')] += 1
+    if r.get('remove_inactive'): d['remove_inactive=True'] += 1
+    if r.get('origin_block'): d['origin_block given as ' + r['origin_block']] += 1
     if r.get('atmvol') is not None: d['atmosphere_volume:%g' % r['atmvol']] += 1
     if r.get('extra_precision'): d['file:extra-precision'] += 1
     if r.get('rconvention') is not None and r['rconvention'] != r['convention']: d['reconstructed-with-another-convention'] += 1
@@ -183,7 +185,7 @@ def sweep(ctx, exe, st, n_exact, n_other, flags, maxn=(12, 12, 14)):
         for i in range(k):
             if st.stop: break
             force = forced[done + i] if done + i < len(forced) else None
-            r = L.gen_recipe(ctx.rng, 'exact', maxn=maxn, force=force)
+            r = L.gen_recipe(ctx.rng, 'rot' if (force is None and (done + i) % 3 == 1) else 'exact', maxn=maxn, force=force)
             if force is None and (done + i) % 9 == 0:       # the two defect classes, every time
                 r = dict(WITNESS[list(WITNESS)[((done + i) // 9) % 2]])
                 r['convention'] = ctx.rng.randrange(4); r['atmos_type'] = 2 if 'surface' in r and r['surface'] else ctx.rng.randrange(3)
@@ -191,7 +193,7 @@ def sweep(ctx, exe, st, n_exact, n_other, flags, maxn=(12, 12, 14)):
             if res is None: continue
             batch.append((r,) + res)
         if exe:
-            lines = [fl + L.case_line(r, geo, grid)[1:] for r, geo, grid, geo1, bm, err in batch]
+            lines = [fl + ('1' if r.get('remove_inactive') else '0') + L.case_line(r, geo, grid)[1:] for r, geo, grid, geo1, bm, err in batch]
             try:
                 outs = run_model(exe, lines)
             except Exception as e:
@@ -246,7 +248,7 @@ def run(ctx):
     ctx.extra['recorded_defects_present'] = flags
     ctx.log('recorded defects present in the tree under test: %r' % flags)
     if ctx.thorough: sweep(ctx, exe, st, 3000, 8000, flags)
-    else: sweep(ctx, exe, st, 160, 400, flags)
+    else: sweep(ctx, exe, st, 240, 600, flags)
     ctx.extra['input_distribution'] = dict(sorted(st.dist.items()))
     ctx.extra['oracle_totals'] = dict(st.tot)
 
